@@ -8,11 +8,10 @@ from ..model import call_name, unparse
 from . import cnative
 from .cnative import SPECPART_C, WRAP_C
 
-# bounds that need a counting argument about counting sort; stated as assumptions, not discharged
-COUNTING = {
-    ("ptsort", "ind[iorder[i]]"): "iorder is a permutation of 0..nspec-1 (prefix sums of the level histogram)",
-    ("ptsort", "iaddr[iv]"): None,   # discharged normally; listed for documentation
-}
+# the bound of a counting-sort slot needs a counting argument: stated as an assumption, not discharged (see counting_sort_slot)
+
+
+from .cnative import counting_sort_slot
 
 
 def native_bounds(repo, rep, rule):
@@ -60,9 +59,10 @@ def native_bounds(repo, rep, rule):
         hi_ok = r.hi is not None and le(r.hi, ext - ONE)
         if lo_ok and hi_ok:
             rep.ok(rule, where, f"0 <= {show(idx)} < {ext}   [{txt}]", f"index range {r} within extent {ext}")
-        elif key in COUNTING and COUNTING[key]:
-            rep.ok(rule, where, f"0 <= {show(idx)} < {ext}   [{txt}]", "ASSUMED: " + COUNTING[key], nontrivial=False)
-            rep.assume(f"{fn}: {COUNTING[key]}")
+        elif lo_ok is not None and counting_sort_slot(cf, fn, idx) and ext == NSPEC:
+            why_ = counting_sort_slot(cf, fn, idx)
+            rep.ok(rule, where, f"0 <= {show(idx)} < {ext}   [{txt}]", "ASSUMED: " + why_, nontrivial=False)
+            rep.assume(f"{fn}: counting sort recognised structurally; its slots are < the number of points sorted (counting argument, not discharged)")
         else:
             undis += 1
             why = []
@@ -542,8 +542,9 @@ def kernel_guards(repo, rep):
     for n in ast.walk(fi.node):
         if isinstance(n, ast.Subscript) and isinstance(n.value, ast.Name) and n.value.id == "dir" and \
                 isinstance(n.slice, ast.Constant) and n.slice.value == 1:
-            gs = [ast.unparse(t) for t, tr in cfg.guards(cfg.node(n)) if tr]
-            if any(x in g for g in gs for x in ("len(dir) > 1", "dir.size > 1", "len(dir) >= 2", "1 < len(dir)", "1 < dir.size", "2 <= len(dir)")) and any("dir is not None" in g for g in gs):
+            from ..astutil import known_facts
+            gs = known_facts(fi.node, n)
+            if any(g in ("1<len(dir)", "1<dir.size", "2<=len(dir)", "2<=dir.size") for g in gs) and "dirisnotNone" in gs:
                 rep.ok("R-C20-4", f"{fi.file}:{n.lineno} hs", "dir[1]", "guarded by 'dir is not None and len(dir) > 1'")
             else:
                 rep.fail("R-C20-4", fi.file, n.lineno, fi.qualname, ast.unparse(n),
